@@ -44,6 +44,30 @@ def _gen(spec):
         return {"kind": kind, "len": ln, "base": base, "rows": rows}
     if kind == "dec":
         return {"kind": kind, "rows": [[list(s)] + limbs(_DEC(bytes(s))) for s in spec["strings"]]}
+    if kind == "enc_hist":
+        # the codec is a FUNCTION: calls outside the range (whatever they do) between the recorded calls leave no trace
+        rows = []
+        for i, val in enumerate(spec["values"]):
+            for bad in spec["outside"][i % len(spec["outside"])]:
+                try:
+                    _ENC(bad)
+                except Exception:
+                    pass
+            rows.append(limbs(val) + list(_ENC(val)))
+        return {"kind": "enc", "rows": rows}
+    if kind == "dec_hist":
+        # ... and the caller may hand in the same (refilled) mutable buffer every time
+        rows = []
+        bufs = {"bytearray": bytearray(), "list": []}
+        for i, st in enumerate(spec["strings"]):
+            how = ("bytearray", "list", "bytes")[(i // 5) % 3]      # runs of consecutive calls with the same object
+            if how == "bytes":
+                arg = bytes(st)
+            else:
+                arg = bufs[how]
+                arg[:] = st
+            rows.append([list(st)] + limbs(_DEC(arg)))
+        return {"kind": "dec", "rows": rows}
     raise MachineryError(kind)
 
 
@@ -83,6 +107,12 @@ def _specs(tier, rng):
     strs += [[rng.randrange(256) for _ in range(rng.randrange(0, 7))] for _ in range(100_000 if tier == "quick" else 500_000)]
     for i in range(0, len(strs), 65536):
         specs.append({"kind": "dec", "strings": strs[i:i + 65536]})
+    # call histories: out-of-range calls interleaved, one mutable buffer reused
+    outside = [[-1], [INT_MAX], [-5, INT_MAX + 7], [253 ** 5], [], [INT_MAX - 1, -(253 ** 2)], [2 ** 64]]
+    hv = [rng.choice([rng.randrange(253), rng.randrange(253 ** 2), rng.randrange(253 ** 3), rng.randrange(INT_MAX)]) for _ in range(20_000)]
+    specs.append({"kind": "enc_hist", "values": hv, "outside": outside})
+    hs = [[rng.choice(BSTRATA + [rng.randrange(256)]) for _ in range(rng.randrange(0, 6))] for _ in range(30_000)]
+    specs.append({"kind": "dec_hist", "strings": hs})
     return specs
 
 
